@@ -485,6 +485,65 @@ func pipelineFacts() {
 		"the sync requests are collected before the snapshot of the last appended offset is taken, the flush covers that offset, and the callbacks run after lastSyncedOffset is stored")
 }
 
+// sessionFacts: shadow maintenance, cleanup, re-arming.
+func sessionFacts() {
+	sm := parse("server/session_manager.go")
+	op := funcDecl(sm, "sessionManagerUpdateOperationCallbackS", "OnPutWithinSession")
+	ob := ""
+	if op != nil {
+		ob = squash(src(op.Body))
+	}
+	iDel := strings.Index(ob, "deleteShadow(batch, request.Key, existingEntry)")
+	iPut := strings.Index(ob, "batch.Put(ShadowKey(SessionId(*request.SessionId), request.Key), []byte{})")
+	iGet := strings.Index(ob, "batch.Get(SessionKey(SessionId(*request.SessionId)))")
+	okOrder := iGet >= 0 && iDel > iGet && iPut > iDel && strings.Contains(ob, "return proto.Status_SESSION_DOES_NOT_EXIST, nil")
+	add("sessionShadowPutBeforeDelete", "Bool", boolLean(!okOrder), "server/session_manager.go: OnPutWithinSession",
+		"false = the session record is looked up first, then the previous owner's shadow is deleted, then the new shadow is written")
+	ini := funcDecl(sm, "sessionManager", "Initialize")
+	ib := ""
+	if ini != nil {
+		ib = squash(src(ini.Body))
+	}
+	rs := funcDecl(sm, "sessionManager", "readSessions")
+	rb := ""
+	if rs != nil {
+		rb = squash(src(rs.Body))
+	}
+	add("sessionInitializeRearmsAllSessions", "Bool", boolLean(strings.Contains(ib, "sessions, err := sm.readSessions()") &&
+		strings.Contains(ib, "for sessionId, sessionMetadata := range sessions { startSession(sessionId, sessionMetadata, sm) }") &&
+		strings.Contains(rb, "StartInclusive: sessionKeyPrefix + \"/\", EndExclusive: sessionKeyPrefix + \"//\",")),
+		"server/session_manager.go: Initialize, readSessions", "every session record of the database gets a fresh timer on the new leader")
+	dr := funcDecl(sm, "sessionManagerUpdateOperationCallbackS", "OnDeleteRange")
+	_ = dr
+	db := parse("server/kv/db.go")
+	adr := funcDecl(db, "db", "applyDeleteRange")
+	ab := ""
+	if adr != nil {
+		ab = squash(src(adr.Body))
+	}
+	// the scan loop calls the callback for every key and has no early exit other than errors
+	loopOK := strings.Contains(ab, "OnDeleteWithEntry(batch, key, se)") && !strings.Contains(ab, "break")
+	add("sessionCallbackOnEveryRangeDeletedKey", "Bool", boolLean(loopOK), "server/kv/db.go: applyDeleteRange",
+		"the delete callback (shadow and index removal) runs for every record of the range, below and above the tombstone threshold")
+	se := parse("server/session.go")
+	wh := funcDecl(se, "session", "waitForHeartbeats")
+	wb := ""
+	if wh != nil {
+		wb = squash(src(wh.Body))
+	}
+	dl := funcDecl(se, "session", "delete")
+	dlb := ""
+	if dl != nil {
+		dlb = squash(src(dl.Body))
+	}
+	okExp := strings.Contains(wb, "case <-timeoutTimer.C:") && strings.Contains(wb, "s.close() if err := s.delete(); err != nil") &&
+		strings.Contains(wb, "timeoutTimer.Reset(s.timeout)") && strings.Contains(wb, "timeoutTimer := time.NewTimer(s.timeout)") &&
+		strings.Contains(dlb, "DeleteRanges: []*proto.DeleteRangeRequest{ { StartInclusive: sessionKey + \"/\", EndExclusive: sessionKey + \"//\", }, }") &&
+		strings.Contains(dlb, "deletes = append(deletes, &proto.DeleteRequest{ Key: sessionKey, })")
+	add("sessionExpiryRunsCleanup", "Bool", boolLean(okExp), "server/session.go: waitForHeartbeats, delete",
+		"a timer of the session timeout, reset by every heartbeat; when it fires the session is closed and its cleanup write is issued (listed keys, the session record, the shadow range)")
+}
+
 // moreFacts collects the facts of the other properties (added per property).
 func moreFacts() {
 	walFacts()
@@ -496,4 +555,5 @@ func moreFacts() {
 	selectorFacts()
 	clientFacts()
 	pipelineFacts()
+	sessionFacts()
 }
